@@ -202,3 +202,41 @@ impl StreamFixture {
         self.handler.take();
     }
 }
+
+// ---- the same connection over a real TCP stream, through accept_config ----
+
+struct Tcp(tokio::net::TcpStream);
+
+impl crate::common::net::TcpStreamWrapper for Tcp {
+    fn into_inner(self) -> std::io::Result<tokio::net::TcpStream> {
+        Ok(self.0)
+    }
+}
+
+impl StreamFixture {
+    /// What the accept loop does with an accepted connection
+    /// (`BmpTcpInRunner::accept_config`): the connection task is spawned; when
+    /// `run` returns it removes the router from the two maps the router list
+    /// is rendered from.
+    pub fn accept(&mut self, tcp_stream: tokio::net::TcpStream) {
+        let handler = self.handler.take().expect("handler already used");
+        super::unit::verif_accept_config(
+            "verif-router".to_string(),
+            handler,
+            Tcp(tcp_stream),
+            self.router_addr,
+            self.router_id,
+            &self.router_states,
+            &self.router_info,
+            self.register.clone(),
+        );
+    }
+
+    /// Is the router still in (router_states, router_info)?
+    pub fn listed(&self) -> (bool, bool) {
+        (
+            self.router_states.contains_key(&self.router_id),
+            self.router_info.contains_key(&self.router_id),
+        )
+    }
+}
